@@ -57,23 +57,20 @@ def check(ctx: Ctx) -> None:
         ctx.counters[f"queue {q}: add sites"] = qi.adds
         ctx.counters[f"queue {q}: consume sites"] = qi.consumes
         ctx.counters[f"queue {q}: loop exits pruned by invariant"] = qi.pruned
-        if qi.adds == 0 or qi.consumes == 0:
-            raise AnalysisError(f"{FN}: queue `{q}` has {qi.adds} add / {qi.consumes} consume sites: idiom not recognised")
+        if qi.adds == 0:
+            raise AnalysisError(f"{FN}: queue `{q}` has no add site: idiom not recognised")
         if not drops:
             ctx.ok("Q1", f"{FN}: deferred-event list consumed on every path", f"{qi.adds} add sites, {qi.consumes} consume sites")
-        kinds = set()
-        for node, why in drops:
+        for node, why, lab in drops:
             kind = "at return" if "return" in why or "falls off" in why else "at re-initialisation"
-            if kind in kinds:
-                continue
-            kinds.add(kind)
+            inst = f"{FN}: deferred {lab} {kind}"
             if qi.unproved_loops:
-                ctx.undetermined("Q1", f"{FN}: deferred-event list {kind}", "a loop exit could not be pruned; not judged")
+                ctx.undetermined("Q1", inst, "a loop exit could not be pruned; not judged")
                 continue
-            ctx.violation("Q1", f"{FN}: deferred-event list {kind}", function=FN,
-                          construct=f"deferred-event list may still hold events {kind}",
-                          message=f"events put aside for the next piece ({why}) are lost when the input ends exactly on a boundary "
-                                  f"(end-of-input `break` leaves the loop without splicing them back)", file=fi.file, node=node)
+            ctx.violation("Q1", inst, function=FN,
+                          construct=f"deferred {lab} may be dropped {kind}",
+                          message=f"a {lab} put aside for the next piece is lost: the list {why} "
+                                  f"(the end-of-input `break` leaves the loop without splicing it back)", file=fi.file, node=node)
 
     # --- CUT
     cut_checked = 0
